@@ -164,6 +164,8 @@ def make_actor(table_path: str, op: Dict[str, Any], shared_table: Any = None, st
                     rows = list(t.iter_records())
                 elif api == "row_count":
                     rows = t.row_count()
+                elif api in FILTERED_READ_APIS:
+                    rows = _read_api(t, api)
                 else:
                     raise ValueError(api)
                 sched.yield_point("ReadEnd", api)["result"] = rows if isinstance(rows, int) else sorted(r["x"] for r in rows)
@@ -176,7 +178,21 @@ def make_actor(table_path: str, op: Dict[str, Any], shared_table: Any = None, st
 # ---------------------------------------------------------------------------------------------------
 # independent reader (no datashard imports)
 # ---------------------------------------------------------------------------------------------------
+# read APIs called WITH a filter (one every row of the harness's tables satisfies, so the expected result is the whole
+# content): the filtered paths additionally resolve the schema (file pruning by column bounds)
+ALL_ROWS_FILTER = {"x": (">", -1_000_000)}
+FILTERED_READ_APIS = ("scan_filter", "scan_parallel_filter", "scan_batches_filter", "iter_records_filter")
+
+
 def _read_api(t: Any, api: str) -> Any:
+    if api == "scan_filter":
+        return t.scan(filter=dict(ALL_ROWS_FILTER))
+    if api == "scan_parallel_filter":
+        return t.scan(filter=dict(ALL_ROWS_FILTER), parallel=2)
+    if api == "scan_batches_filter":
+        return [r for b in t.scan_batches(batch_size=1, filter=dict(ALL_ROWS_FILTER)) for r in b]
+    if api == "iter_records_filter":
+        return list(t.iter_records(filter=dict(ALL_ROWS_FILTER)))
     if api == "scan":
         return t.scan()
     if api == "scan_parallel":
